@@ -31,6 +31,7 @@ class Sched:
         self.delivered = 0
         self.escaped = []        # (origin, kind, exception) escaping a deferred call
         self.origin = None       # op index a running deferred call originated from
+        self.now = None          # executor-assigned origin id of the running op/probe
         self._saved = None
         self.nthreads = 0
 
@@ -77,7 +78,9 @@ class Sched:
         self.cur = t
 
     def cur_origin(self):
-        return self.origin if self.origin is not None else self.env.op_index
+        if self.origin is not None:
+            return self.origin
+        return self.now if self.now is not None else self.env.op_index
 
     def ui_handler(self, handler, *args, **kw):
         self.enqueue("ui", handler, args, kw)
